@@ -340,7 +340,7 @@ def obligations(tier):
                     meas = "drop" in (x, y) or "upd_meas" in (x, y) or fi in (1, 3)
                     seq.append({"id": f"seq/{'ai' if ai else 'noai'}/ins,ins,{x},{y}/final{fi}", "harness": "h_inv", "params": dict({"ops": ops, "ai": ai, "alpha": "sel", "also": ["tag", "meas"] if meas else ["tag"], "torder": _hc.seq_torder(("ins", "ins", x, y)), "split_op": True}, **fin), "budget_s": 120 if not thorough else 600, "presets": {}})
     # the whole family is 1320 histories (about 0.7 s each on 16 cores): an evenly spaced slice per tier
-    obs.extend(_hc.thin(seq, 240 if thorough else 44))
+    obs.extend(_hc.thin(seq, 360 if thorough else 44))
     # wide databases: 10 points, every subset of matching positions
     for kind in ("read", "rm", "upd"):
         for cname, ai, rx in CONFIGS[:2] + [("manual-pre", False, False)]:
@@ -373,7 +373,8 @@ def obligations(tier):
                 if not thorough and scen != "ins" and cname != "ai":
                     continue
                 obs.append(
-                    _ob(f"csv/{scen}/{q_repr(q)}/{cname}", q, scen, ai, rx, storage="csv", n=3 if thorough else 2, torder="sym", reopen=(cname == "scan"), alpha="small" if thorough else "sel", budget=600 if thorough else 90, split_op=True)
+                    # three points (real files: ~200 s of CPU per obligation) only for the plain insert history with the index on
+                    _ob(f"csv/{scen}/{q_repr(q)}/{cname}", q, scen, ai, rx, storage="csv", n=3 if (thorough and scen == "ins" and cname == "ai") else 2, torder="sym", reopen=(cname == "scan"), alpha="small" if thorough else "sel", budget=600 if thorough else 90, split_op=True)
                 )
     if thorough:
         for q in L_TIME + [("tag", "k", OP, SYM), ("field", "f", OP, SYM), ("and", A, B), ("or", A2, C), ("not", ("and", A, B))]:
